@@ -130,8 +130,10 @@ def c13(tier, seed):
         import contextlib
         ftid = None; ref_f = None
         tids_ = [t for _, _, t in D.families]
+        gids13 = set(g_ for _, gs_ in D.species for g_, _ in gs_)
         if tids_ and all(t is not None for t in tids_):
-            ftid = ex.rng.choice(tids_)
+            both_ = [t for t in tids_ if t in gids13]            # a family id that is also a gene id (numeric ids)
+            ftid = ex.rng.choice(both_ or tids_)
             try:
                 f0_ = pyham.ParserFilter(); f0_.add_hogs_via_hogId([ftid])
                 c0_, _ = canon_analysis(core.load_py(D, filter_object=f0_), [], with_profiles=False)
@@ -150,6 +152,13 @@ def c13(tier, seed):
                 kw.update(tree_file=os.path.join(d, 't_noint.nwk'), tree_format='newick')
             else:
                 kw.update(tree_file=os.path.join(d, 't.phyloxml'), tree_format='phyloxml', phyloxml_leaf_name_tag=lt, phyloxml_internal_name_tag=it)
+                if ex.rng.random() < 0.6:
+                    # only the chosen tags carry the names of this tree, the others carry other texts (r10-C13a: the tags
+                    # must reach every place that re-reads the file)
+                    pxd_ = os.path.join(d, 't_%s_%s.phyloxml' % (lt, it))
+                    with open(pxd_, 'w') as f_:
+                        f_.write(phyloxml_decoy(D.T, lt, it if naming == 'own' else lt))
+                    kw.update(tree_file=pxd_); ex.res.count('phyloxml_with_other_texts_in_the_unused_tags')
             if transport == 'string':
                 kw.update(hog_file=xml_lines, orthoXML_as_string=True)
             elif transport == 'string1':
@@ -177,6 +186,22 @@ def c13(tier, seed):
             k2 = first_diff(ref, got)
             if k2:
                 bad.append('configuration %s differs from the reference load in %s' % ((tree_kind, naming, transport, prog, lt, it), k2))
+            # the same id TEXT given to another selector on the same file (r10-C13b: an index cache keyed by file and by the
+            # union of the selectors): gene-id selection, compared with the string route
+            if ftid is not None and transport in ('file', 'gz') and ftid in gids13 and ex.rng.random() < 0.5:
+                try:
+                    with contextlib.redirect_stderr(io.StringIO()):
+                        fa_ = pyham.ParserFilter(); fa_.add_hogs_via_hogId([ftid]); pyham.Ham(filter_object=fa_, **kw)
+                        fb_ = pyham.ParserFilter(); fb_.add_hogs_via_GeneIntId([ftid])
+                        cb_, _ = canon_analysis(pyham.Ham(filter_object=fb_, **kw), [], with_profiles=False)
+                        fc_ = pyham.ParserFilter(); fc_.add_hogs_via_GeneIntId([ftid])
+                        cc_, _ = canon_analysis(core.load_py(D, filter_object=fc_), [], with_profiles=False)
+                    kb_ = first_diff({k_: cc_[k_] for k_ in ('forest', 'members', 'genes')}, {k_: cb_[k_] for k_ in ('forest', 'members', 'genes')})
+                    ex.res.count('same_id_text_through_two_selectors')
+                    if kb_:
+                        bad.append('configuration %s: selecting gene %r after selecting family %r on the same file differs from the string route in %s' % ((tree_kind, naming, transport, prog, lt, it), ftid, ftid, kb_))
+                except Exception as e:      # noqa
+                    bad.append('configuration %s with two selectors raised %s: %s' % ((tree_kind, naming, transport, prog, lt, it), type(e).__name__, e))
             # the same configuration with a filter (one family named by its id): the same selection whatever the route
             if ftid is not None and ex.rng.random() < 0.4:
                 try:
@@ -215,6 +240,24 @@ def copy_dataset(D):
 def phyloxml_all(T):
     def clade(t):
         s = '<clade><name>%s</name><taxonomy><code>%s</code><scientific_name>%s</scientific_name></taxonomy>' % ((gen.xml_escape(t[0]),) * 3)
+        for k in t[1]:
+            s += clade(k)
+        return s + '</clade>'
+    return ('<phyloxml xmlns:xsi="http://www.w3.org/2001/XMLSchema-instance" xmlns="http://www.phyloxml.org" '
+            'xsi:schemaLocation="http://www.phyloxml.org http://www.phyloxml.org/1.20/phyloxml.xsd">\n'
+            '<phylogeny rooted="true" rerootable="false"><name>t</name>' + clade(T) + '</phylogeny>\n</phyloxml>\n')
+
+def phyloxml_decoy(T, leaf_tag, internal_tag):
+    """the tree as PhyloXML in which only the CHOSEN name tags carry the names; the other tags carry other texts (as in
+    files where <code> is the species code and <scientific_name> the Latin name)"""
+    cnt = [0]
+    def clade(t):
+        cnt[0] += 1
+        tag = leaf_tag if not t[1] else internal_tag
+        texts = dict(clade_name='decoy ' + t[0], taxonomy_code='Q%03d' % cnt[0], taxonomy_scientific_name='Decoyus ' + t[0])
+        texts[tag] = t[0]
+        s = '<clade><name>%s</name><taxonomy><code>%s</code><scientific_name>%s</scientific_name></taxonomy>' % (
+            gen.xml_escape(texts['clade_name']), gen.xml_escape(texts['taxonomy_code']), gen.xml_escape(texts['taxonomy_scientific_name']))
         for k in t[1]:
             s += clade(k)
         return s + '</clade>'
@@ -453,7 +496,10 @@ def c15(tier, seed):
         D = respell(ex.rng, std_dataset(ex.rng))
         cid = 'C15-%d' % k
         ex.note_dataset(D)
-        h = load_or_fail(ex, cid, D)
+        lkw15 = dict(phyloxml_dir=ex.tmp) if ex.rng.random() < 0.25 else {}       # (lookups after profiles differ by tree format: r10-C15a)
+        if lkw15:
+            ex.res.count('tree_as_phyloxml_file')
+        h = load_or_fail(ex, cid, D, **lkw15)
         if h is None:
             continue
         bad = []
@@ -873,6 +919,24 @@ def c18(tier, seed):
         for nd in tx.tree.traverse():
             if not nd.is_leaf():
                 o.put('txsub', taxS(pathof(nd)) + '=' + tx.get_newick_from_tree(nd))
+        # the same tree from a Newick FILE, every label in single quotes (the standard spelling of names with blanks): same names
+        # and depths (r10-C18b: the quoted-names option not forwarded on the file route)
+        if k % 3 == 1:
+            try:
+                def qrec(t, root=False):
+                    s_ = ("'" + t[0] + "'") if not t[1] else '(' + ','.join(qrec(k_) for k_ in t[1]) + ')' + ("'" + t[0] + "'" if internal and t[0] else '')
+                    return s_ if root or not lengths else s_ + ':0.5'
+                pq = os.path.join(ex.tmp, 'c18q.nwk')
+                with open(pq, 'w') as fq:
+                    fq.write(qrec(T, True) + ';\n')
+                txq = pyham.taxonomy.Taxonomy(pq, tree_format='newick', use_internal_name=(naming == 'own'))
+                ex.res.count('trees_also_read_from_a_quoted_newick_file')
+                for nd in txq.tree.traverse():
+                    p_ = pathof(nd)
+                    if nd.name != gen.display_name(T, p_, naming) or nd.depth != len(p_):
+                        bad.append('quoted Newick file route: name / depth of %s is %r / %r' % (taxS(p_), nd.name, nd.depth))
+            except Exception as e:      # noqa
+                bad.append('quoted Newick file route raised %s: %s' % (type(e).__name__, e))
         # the same tree read from a PhyloXML file: same names, depths, and the same Newick for every subtree (the root included)
         if k % 4 == 0 and all(gen.display_name(T, p_, naming) for p_ in gen.paths(T)):
             try:
@@ -976,8 +1040,9 @@ def c17(tier, seed):
         D = respell(ex.rng, std_dataset(ex.rng, maxleaves=ex.rng.choice([3, 4, 5, 6, 8])))
         cid = 'C17-%d' % k
         ex.note_dataset(D)
-        lkw = dict(phyloxml_dir=ex.tmp) if ex.rng.random() < 0.25 else {}
-        ex.res.count('tree_as_phyloxml_file' if lkw else 'tree_as_newick_string')
+        r17_ = ex.rng.random()
+        lkw = dict(phyloxml_dir=ex.tmp) if r17_ < 0.25 else dict(newick_dir=ex.tmp) if r17_ < 0.45 else {}
+        ex.res.count('tree_as_phyloxml_file' if 'phyloxml_dir' in lkw else 'tree_as_newick_file' if lkw else 'tree_as_newick_string')
         hs = [load_or_fail(ex, cid, D, **lkw), load_or_fail(ex, cid, D, **lkw)]
         if hs[0] is None or hs[1] is None:
             continue
@@ -999,8 +1064,10 @@ def c17(tier, seed):
                                   'misc', 'misc', 'misc'])
             if kind == 'misc':
                 # the rest of the public surface: listings, the remaining lookups, member navigation, exports to disk
-                sub_ = ex.rng.choice(['lists', 'xref', 'mrca', 'levels', 'byspecies', 'toplevel', 'tphtml', 'ihamfile', 'anc_taxon', 'taxon_name', 'ndup'])
+                sub_ = ex.rng.choice(['lists', 'xref', 'mrca', 'levels', 'byspecies', 'toplevel', 'tphtml', 'ihamfile', 'anc_taxon', 'taxon_name', 'ndup', 'ngenes', 'ngenes'])
                 wm = ex.rng.randint(0, 1)
+                if sub_ == 'ngenes' and taxa:
+                    ops.append([wm, sub_, ex.rng.choice(taxa), ex.rng.random() < 0.5]); continue
                 if sub_ in ('levels', 'byspecies', 'toplevel') and hogkeys:
                     ops.append([wm, sub_, ex.rng.choice(hogkeys)])
                 elif sub_ == 'mrca' and len(taxa) >= 2:
@@ -1099,6 +1166,9 @@ def c17(tier, seed):
                                                 ','.join(sorted(x.name for x in h.get_list_extant_genomes() if x.genes)),
                                                 ','.join(sorted(x.name for x in h.get_list_ancestral_genomes() if x.genes)),
                                                 ','.join(sorted(nodekey(x) for x in h.get_list_top_level_hogs()))])
+                if kind == 'ngenes':
+                    g_ = gs[op[2]]
+                    return 'ngenes %s' % (g_.get_number_genes(singleton=op[3]) if not g_.taxon.children else g_.get_number_genes())
                 if kind == 'xref':
                     return 'xref ' + ','.join(sorted(x.unique_id for x in h.get_genes_by_external_id(op[2])))
                 if kind == 'mrca':
@@ -1135,7 +1205,7 @@ def c17(tier, seed):
                     return 'gname %s %s' % (taxS(op[2]), 'same' if f(g.name) is g else 'OTHER')
                 if kind == 'lookup':
                     g = h.get_gene_by_id(op[2])
-                    return 'lookup %s %s %s' % (g.unique_id, g.genome.name, nodekey(h.get_hog_by_gene(g)) if g.parent is not None else 'singleton')
+                    return 'lookup %s\t%s\t%s' % (g.unique_id, g.genome.name, nodekey(h.get_hog_by_gene(g)) if g.parent is not None else 'singleton')
                 if kind == 'atlevel':
                     x = byk[op[2]]
                     return 'atlevel ' + ob.keysS(x.get_at_level(gs[op[3]]))
@@ -1167,7 +1237,10 @@ def c17(tier, seed):
         ex.res.count('returned_objects_reread', len(held))
         fresh_out = []
         for op in ops:
-            fh = core.load_py(D, **lkw)
+            try:
+                fh = core.load_py(D, **lkw)
+            except Exception as e:      # noqa
+                bad.append('loading the same inputs again raised %s: %s' % (type(e).__name__, str(e)[:120])); break
             fresh_out.append(run_op(fh, op, []))
         for i, (a, b) in enumerate(zip(outs, fresh_out)):
             if a != b:
@@ -1207,7 +1280,7 @@ def c17(tier, seed):
                     sops.append('(clust %s)' % tax_q(op[2])); pyo.append(out)
                 elif kind == 'lookup':
                     sops.append('(gene %s)' % gen.q(op[2]))
-                    pyo.append('gene ' + ' '.join(out.split(' ')[1:3]) if out.startswith('lookup ') else out)
+                    pyo.append('gene ' + ' '.join(out[7:].split('\t')[0:2]) if out.startswith('lookup ') else out)      # (names may hold blanks)
                 elif kind == 'nav':
                     sops.append('(genes %s)' % gen.q(op[2]))
                     pyo.append('genes ' + out[4:].split('|')[0] if out.startswith('nav ') else out)
